@@ -33,7 +33,9 @@ type lline struct {
 	idx  int // index into Equs / Ins / meta
 }
 
-var respellings = []string{"a", "x1", "_t", "Loop", "i", "imp_2"}
+// label spellings: ordinary ones, ones that begin or end like opcodes and
+// pseudo-ops, and a predefined constant in lower case
+var respellings = []string{"a", "x1", "_t", "Loop", "i", "imp_2", "mover", "end1", "format", "data", "rofl", "equal", "org2", "coresize", "dat_1", "jmpx"}
 
 // layout lists the logical lines in default order.
 func layout(p *ref.AProg) []lline {
@@ -109,14 +111,14 @@ func Sites(p *ref.AProg) []Dev {
 			out = append(out, Dev{"exprsp", li, 0, 0})
 		}
 		if l.kind != lMeta {
-			out = append(out, Dev{"trail", li, 0, 0}, Dev{"trail", li, 0, 1})
+			out = append(out, Dev{"trail", li, 0, 0}, Dev{"trail", li, 0, 1}, Dev{"trail", li, 0, 2}, Dev{"trail", li, 0, 3})
 		}
 	}
 	for b := 0; b <= len(ls); b++ {
 		if p.StartKind == ref.StartEnd && b == len(ls) {
 			// after END everything is ignored; still legal
 		}
-		for v := 0; v < 3; v++ {
+		for v := 0; v < 5; v++ {
 			out = append(out, Dev{"insert", b, 0, v})
 		}
 	}
@@ -329,10 +331,15 @@ func Render(p0 *ref.AProg, devs []Dev) (string, bool) {
 			sb.WriteString(gp(5, ""))
 		}
 		if v, ok := find("trail", li, 0); ok {
-			if v == 0 {
+			switch v {
+			case 0:
 				sb.WriteString(" ; c")
-			} else {
+			case 1:
 				sb.WriteString(";c")
+			case 2:
+				sb.WriteString(" ; see ;assert 0 and ;name X ;author Y, end org equ")
+			default:
+				sb.WriteString(" ;\xff\x00\x1a odd bytes")
 			}
 		}
 		text[li] = sb.String()
@@ -380,6 +387,10 @@ func Render(p0 *ref.AProg, devs []Dev) (string, bool) {
 					out.WriteString("\n")
 				case 1:
 					out.WriteString(";c\n")
+				case 3:
+					out.WriteString("; a comment with ;assert 0 inside, and mov 0, 1\n")
+				case 4:
+					out.WriteString("  \t \r\n")
 				default:
 					out.WriteString("\n\n")
 				}
